@@ -216,6 +216,26 @@ pub enum Unsupported {
 	Custom,
 	UnknownEku,
 	SubjectKeyId,
+	/// a subjectAltName entry of a form rcgen's `SanType` cannot hold (see `odd_general_name`)
+	OddSanEntry(u8),
+}
+
+/// GeneralName forms outside `SanType`: otherName values that are not UTF8Strings (under well-known
+/// and arbitrary type-ids), directoryName, registeredID, x400Address-like and ediPartyName-like tags.
+pub fn odd_general_name(kind: u8) -> Vec<u8> {
+	let other = |oid: &[u64], value: Vec<u8>| der::enc_tlv(0xa0, &[der::enc_oid(oid), der::enc_tlv(0xa0, &value)].concat());
+	match kind % 10 {
+		0 => other(&[1, 3, 6, 1, 5, 5, 7, 8, 7], der::enc_tlv(0x16, b"_imap.example.com")), // SRVName, IA5String
+		1 => other(&[1, 2, 3, 4], der::enc_tlv(0x16, b"plain ia5")),
+		2 => other(&[1, 3, 6, 1, 4, 1, 311, 20, 2, 3], der::enc_tlv(0x13, b"user at example")), // UPN type-id, PrintableString
+		3 => other(&[1, 3, 6, 1, 5, 2, 2], der::enc_seq(&[der::enc_tlv(0xa0, &der::enc_tlv(0x1b, b"EXAMPLE.COM"))])), // KRB5PrincipalName-like
+		4 => other(&[1, 3, 6, 1, 5, 5, 7, 8, 5], der::enc_tlv(0x1e, &[0, b'x', 0, b'y'])), // XmppAddr type-id, BMPString
+		5 => other(&[1, 3, 6, 1, 5, 5, 7, 8, 9], der::enc_tlv(0x04, b"octets")),
+		6 => der::enc_tlv(0xa4, &der::enc_seq(&[der::enc_tlv(0x31, &der::enc_seq(&[der::enc_oid(&[2, 5, 4, 3]), der::enc_tlv(0x0c, b"dir")]))])), // directoryName
+		7 => der::enc_tlv(0x88, &[0x2a, 0x03, 0x04]), // registeredID 1.2.3.4
+		8 => der::enc_tlv(0xa5, &der::enc_tlv(0xa1, &der::enc_tlv(0x0c, b"party"))), // ediPartyName
+		_ => other(&[1, 3, 6, 1, 5, 5, 7, 8, 7], der::enc_tlv(0x0c, b"")[..0].to_vec()), // otherName with an empty value field
+	}
 }
 
 fn foreign_subject() -> BoxedStrategy<FName> {
@@ -268,6 +288,7 @@ fn foreign_csr() -> BoxedStrategy<ForeignCsr> {
 			1 => Just(vec![Unsupported::Custom]),
 			1 => Just(vec![Unsupported::UnknownEku]),
 			1 => Just(vec![Unsupported::SubjectKeyId]),
+			2 => (0u8..10).prop_map(|k| vec![Unsupported::OddSanEntry(k)]),
 		],
 		prop::option::weighted(0.3, "[a-zA-Z0-9]{1,10}"),
 		prop::bool::weighted(0.05),
@@ -348,6 +369,14 @@ pub fn forge_foreign(f: &ForeignCsr) -> Result<Vec<u8>, String> {
 				));
 			},
 			Unsupported::SubjectKeyId => exts.push(forge::enc_ext(x509::OID_SKI, false, &der::enc_tlv(0x04, &[1, 2, 3, 4]))),
+			Unsupported::OddSanEntry(kind) => {
+				// the request's alternative names plus one entry of a form rcgen cannot carry over
+				exts.retain(|e| !e.windows(5).any(|w| w == [0x06, 0x03, 0x55, 0x1d, 0x11]));
+				let mut names: Vec<Vec<u8>> = spec.sans.iter().map(forge::enc_general_name_san).collect();
+				let at = (*kind as usize / 10 + names.len() / 2).min(names.len());
+				names.insert(at, odd_general_name(*kind));
+				exts.push(forge::enc_ext(x509::OID_SAN, true, &der::enc_seq(&names)));
+			},
 		}
 	}
 	let mut attributes = Vec::new();
